@@ -50,6 +50,17 @@ def generate(rng, tier: str, index: int) -> dict:
             continue
         seen.add(key)
         uniq.append(r)
+    if rng.chance(0.4):
+        # routes that differ only by prefix and next hop (same attribute values): they are queued under one attribute group and
+        # must still leave with their own next hop
+        bases = [r for r in uniq if r['fam'] == 'v4u' and not r.get('split')][:2]
+        for bi, b in enumerate(bases):
+            others = [n for n in ['10.0.0.9', '10.0.0.77', '192.0.2.254', 'self'] if n != b['nh']]
+            for j in range(rng.randint(1, 3)):
+                sib = jclone(b)
+                sib['p'] = f'198.18.{10 * bi + j}.0/24'
+                sib['nh'] = others[j % len(others)]
+                uniq.insert(uniq.index(b) + 1, sib)
     nstatic = rng.randint(0, min(3, len(uniq)))
     return {'micro_seed': rng.randint(1, 1 << 48), 'knobs': knobs(rng), 'kinds': kinds, 'routes': uniq, 'nstatic': nstatic, 'gap': rng.choice([0.0, 0.01, 0.2])}
 
